@@ -74,3 +74,21 @@ Example ex_weak :
   ob_drawn (snd (step w (mkr 4 []))) <> supply (w_st w) /\
   length (cache (w_st (fst (step w (mkr 4 []))))) = 1%nat.
 Proof. vm_compute. repeat split. discriminate. Qed.
+
+(* N < 0, SessionCacheExpiry 50: two sessions idle for 60 and 65 are flushed by
+   the next write, with their old access times; nothing leaves for size *)
+Definition cNeg : cfg := mkCfg 100000 100000 100 50 (-1) 0 true false.
+Definition h_neg : list hop := [mkr 1 []; HWait 5; mkr 2 []; HWait 60].
+
+Example ex_unbounded_hist :
+  let w := reach cNeg h_neg in let ob := snd (step w (mkr 3 [])) in
+  map fst (cache (w_st w)) = [KGen 0; KGen 1] /\
+  map fst (cache (w_st (fst (step w (mkr 3 []))))) = [KGen 2] /\
+  (exists r, In (EvSave (KGen 0) r true) (ob_evs ob) /\ r_access r = 0) /\
+  (exists r, In (EvSave (KGen 1) r true) (ob_evs ob) /\ r_access r = 5) /\
+  ob_now ob = 65.
+Proof.
+  vm_compute. split; [reflexivity|]. split; [reflexivity|].
+  split; [eexists; split; [right; left; reflexivity | reflexivity]|].
+  split; [eexists; split; [right; right; left; reflexivity | reflexivity] | reflexivity].
+Qed.
